@@ -184,7 +184,7 @@ func codecModel(callee string, args []SV, ev *symEval, st *symState) (SV, bool) 
 			switch u := t.Underlying().(type) {
 			case *types.Struct:
 				for i := 0; i < u.NumFields(); i++ {
-					if !walk(u.Field(i).Type(), addr+"."+u.Field(i).Name()) {
+					if !walk(u.Field(i).Type(), addr+"."+canonFieldName(u.Field(i))) {
 						return false
 					}
 				}
